@@ -1245,4 +1245,4 @@ def replay(path, seed):
             fails = fails + oracle_script(run_, res)
         print("oracle:", fails or "accepts")
         return 1 if fails else 0
-    return 0
+    return 2   # not a kind of record this function knows how to replay (the driver then re-runs the check)
